@@ -23,8 +23,8 @@ THEOREMS = ['Props.C04.' + t for t in [
     'vertical_connection_geometry', 'vertical_connection_atmosphere',
     'grid_block_volume', 'grid_vertical_distances_add_up',
     'untilted_tilt_vector', 'gravity_cosine_vertical', 'gravity_cosine_horizontal', 'gravity_cosine_truncated',
-    'horizontal_connection_geometry', 'perpendicular_is_shortest']]
-LEVEL_TEXT = ('Proof over exact arithmetic: 20 Lean theorems about an executable model of fromgeo and the geometry helpers '
+    'horizontal_connection_geometry', 'direction_by_permeability_angle', 'perpendicular_is_shortest']]
+LEVEL_TEXT = ('Proof over exact arithmetic: 21 Lean theorems about an executable model of fromgeo and the geometry helpers '
               '(fromgeo returns on every well-formed geometry; block list and connection list equal the announced name lists, in order '
               'and orientation, for every geometry, naming convention, atmosphere type, block order and injective block map; every block '
               'carries block_volume/block_centre of its layer and column and every connection comes from one of the two loop bodies; volume '
